@@ -221,7 +221,8 @@ func vsign(k vkey, digest []byte) [65]byte {
 }
 
 func (g *vgen) ver(kind string, v *VAA, addrs []common.Address) {
-	digest := v.SigningMsg().Bytes()
+	// the digest for the oracle is recomputed from the body bytes, never taken from the VAA's own SigningMsg()
+	digest := crypto.Keccak256(crypto.Keccak256(v.SerializeBody()))
 	res := func() (r string) {
 		defer func() {
 			if e := recover(); e != nil {
